@@ -75,7 +75,7 @@ structure PEnvOK (e : Env) : Prop where
   off0 : 0 ≤ e.off
 
 structure Sim (e : Env) (M0 : Int → Int) (n0p n0c : Int) (X : List Int) (ps : St) (cs : ColDfs.St) : Prop where
-  lsub : ∀ x, 0 ≤ x → x < e.lsub.size → rd cs.lsub x = rd e.lsub x
+  lsub : ∀ x : Int, 0 ≤ x → x < e.lsub.size → rd cs.lsub x = rd e.lsub x
   nextl : (e.lsub.size : Int) ≤ cs.nextl
   szM : (ps.marker.size : Int) = 3 * e.m
   szMc : (cs.marker.size : Int) = 3 * e.m
@@ -196,7 +196,7 @@ theorem PInv.rootStart {st st' : St} (h : PInv e st) {krep kperm : Int}
 section prim
 variable {X : List Int} {ps : St} {cs : ColDfs.St}
 
-theorem Sim.markRow (h : Sim e M0 n0p n0c X ps cs) (hm0 : 0 ≤ e.m) {r : Int} (r0 : 0 ≤ r) (r1 : r < e.m) :
+theorem Sim.markRow (h : Sim e M0 n0p n0c X ps cs) {r : Int} (r0 : 0 ≤ r) (r1 : r < e.m) :
     Sim e M0 n0p n0c X { ps with marker := wr ps.marker r e.jj }
       { cs with marker := wr cs.marker (2 * e.cenv.m + r) e.cenv.jcol } := by
   have hsz := h.szM
@@ -236,8 +236,10 @@ theorem Sim.append (h : Sim e M0 n0p n0c X ps cs) (row mark : Int) :
   · exact { key with }
   · exact key
 
-theorem Sim.lower (h : Sim e M0 n0p n0c X ps cs) (hE : PEnvOK e) {rep kp myfnz : Int} (r0 : 0 ≤ rep) (r1 : rep < e.jcol) :
-    Sim e M0 n0p n0c X (lowerFnz e ps rep myfnz kp) (ColDfs.lowerFnz cs rep myfnz kp) := by
+theorem Sim.lower (h : Sim e M0 n0p n0c X ps cs) (hE : PEnvOK e) {rep kp myfnz myfnz' : Int} (r0 : 0 ≤ rep) (r1 : rep < e.jcol)
+    (hmy : myfnz = myfnz') :
+    Sim e M0 n0p n0c X (lowerFnz e ps rep myfnz kp) (ColDfs.lowerFnz cs rep myfnz' kp) := by
+  subst hmy
   unfold lowerFnz ColDfs.lowerFnz
   have hjm := hE.jm
   have hoff := hE.off0
@@ -257,5 +259,309 @@ theorem Sim.lower (h : Sim e M0 n0p n0c X ps cs) (hE : PEnvOK e) {rep kp myfnz :
   · exact h
 
 end prim
+
+theorem int_nodup_range {l : List Int} {n : Int} (hn : 0 ≤ n) (hnd : l.Nodup) (hr : ∀ t ∈ l, 0 ≤ t ∧ t < n) : (l.length : Int) ≤ n := by
+  have h1 : (l.map Int.toNat).Nodup := by
+    refine Nodup.map_on ?_ hnd
+    intro a ha b hb hab
+    have := (hr a ha).1; have := (hr b hb).1; omega
+  have h2 : ∀ t ∈ l.map Int.toNat, t < n.toNat := by
+    intro t ht
+    obtain ⟨a, ha, rfl⟩ := mem_map.mp ht
+    have := hr a ha; omega
+  have := ColDfs.nodup_lt_length h1 h2
+  rw [length_map] at this
+  omega
+
+theorem record_parent (e : Env) (st : St) (k : Int) : (record e st k).parent = st.parent ∧ (record e st k).xplore = st.xplore ∧
+    (record e st k).repfnz = st.repfnz := by
+  unfold record; split <;> exact ⟨rfl, rfl, rfl⟩
+
+theorem lowerFnz_parent (e : Env) (st : St) (a b c : Int) : (lowerFnz e st a b c).parent = st.parent ∧ (lowerFnz e st a b c).xplore = st.xplore := by
+  unfold lowerFnz; split <;> exact ⟨rfl, rfl⟩
+
+section prim2
+variable {X : List Int} {ps : St} {cs : ColDfs.St}
+
+/-- lines 234-238 against `segrep[nseg++] = krep` of column_dfs -/
+theorem Sim.record (h : Sim e M0 n0p n0c X ps cs) (hE : PEnvOK e) {krep : Int} (k0 : 0 ≤ krep) (k1 : krep < e.jcol) :
+    Sim e M0 n0p n0c (X ++ [krep]) (record e ps krep) { cs with segrep := wr cs.segrep cs.nseg krep, nseg := cs.nseg + 1 } := by
+  have hjj := hE.jj
+  have hjm := hE.jm
+  have hcn := h.cnseg
+  have hn0c := h.hn0c
+  have hcseg : ((wr cs.segrep cs.nseg krep).size : Int) ≥ cs.nseg + 1 → slice (wr cs.segrep cs.nseg krep) n0c (cs.nseg + 1) = X ++ [krep] := by
+    intro hle
+    rw [size_wr] at hle
+    rw [slice_snoc _ hn0c (by omega), rd_wr_eq (by omega) (by omega)]
+    congr 1
+    rw [slice_congr hn0c (fun y _ hy => rd_wr_ne (by omega))]
+    exact h.cseg (by omega)
+  have hm1k := h.m1 krep k0 k1
+  have htest : PanelDfs.m1 e ps krep < e.jcol ↔ (M0 krep < e.jcol ∧ krep ∉ pushNew e.jcol M0 X) := by
+    rw [hm1k]
+    by_cases hin : krep ∈ pushNew e.jcol M0 X
+    · simp only [hin, if_true, not_true_eq_false, and_false, iff_false]; omega
+    · simp [hin]
+  unfold PanelDfs.record
+  by_cases hT : rd ps.marker (e.m + krep) < e.jcol
+  · have hT' := htest.mp hT
+    simp only [hT, if_true]
+    have hpn : pushNew e.jcol M0 (X ++ [krep]) = pushNew e.jcol M0 X ++ [krep] := by
+      rw [pushNew_snoc]; simp [hT'.1, hT'.2]
+    have hnotin : krep ∉ slice ps.segrep 0 ps.nseg := by
+      intro hin
+      have := (h.sgrng krep hin).2.2
+      unfold PanelDfs.m1 at this; omega
+    have hp0 := h.hn0p
+    have hcap : ps.nseg < ps.segrep.size := by
+      have hnd : (slice ps.segrep 0 ps.nseg ++ [krep]).Nodup := by
+        rw [nodup_append]
+        exact ⟨h.sgnd, by simp, fun a ha b hb => by
+          rw [mem_singleton] at hb; subst hb; intro hab; subst hab; exact hnotin ha⟩
+      have hlen := int_nodup_range (n := e.jcol) hE.env.jcol0 hnd (fun t ht => by
+        rcases mem_append.mp ht with ht | ht
+        · exact ⟨(h.sgrng t ht).1, (h.sgrng t ht).2.1⟩
+        · rw [mem_singleton] at ht; subst ht; exact ⟨k0, k1⟩)
+      rw [length_append, ColDfs.slice_length] at hlen
+      have hsz := h.szS
+      simp only [length_singleton] at hlen
+      omega
+    have hslice : ∀ a, 0 ≤ a → a ≤ ps.nseg → slice (wr ps.segrep ps.nseg krep) a (ps.nseg + 1) = slice ps.segrep a ps.nseg ++ [krep] := by
+      intro a a0 a1
+      rw [slice_snoc _ a0 a1, rd_wr_eq (by omega) hcap]
+      congr 1
+      exact slice_congr a0 (fun y _ hy => rd_wr_ne (by omega))
+    have hm1' : ∀ t, 0 ≤ t → rd (wr ps.marker (e.m + krep) e.jj) (e.m + t) = if t = krep then e.jj else PanelDfs.m1 e ps t := by
+      intro t t0
+      by_cases ht : t = krep
+      · subst ht; simp only [if_true]; exact rd_wr_eq (by omega) (by have := h.szM; omega)
+      · simp only [ht, if_false]; exact rd_wr_ne (by omega)
+    exact { h with
+      szM := by show ((wr ps.marker _ _).size : Int) = _; rw [size_wr]; exact h.szM
+      mark := fun r r0 r1 => by
+        show rd (wr ps.marker (e.m + krep) e.jj) r = e.jj ↔ _
+        rw [rd_wr_ne (by omega)]; exact h.mark r r0 r1
+      hn0p := ⟨hp0.1, by show n0p ≤ ps.nseg + 1; omega⟩
+      cnseg := by show cs.nseg + 1 = n0c + ((X ++ [krep]).length : Int); rw [length_append]; simp; omega
+      cseg := fun hle => hcseg (by exact hle)
+      seg := by
+        show slice (wr ps.segrep ps.nseg krep) n0p (ps.nseg + 1) = _
+        rw [hslice n0p hp0.1 hp0.2, hpn, h.seg]
+      m1 := fun t t0 t1 => by
+        show rd (wr ps.marker (e.m + krep) e.jj) (e.m + t) = _
+        rw [hm1' t t0, hpn, h.m1 t t0 t1]
+        by_cases ht : t = krep
+        · simp [ht]
+        · simp [ht]
+      sgnd := by
+        show (slice (wr ps.segrep ps.nseg krep) 0 (ps.nseg + 1)).Nodup
+        rw [hslice 0 (le_refl _) (by omega), nodup_append]
+        exact ⟨h.sgnd, by simp, fun a ha b hb => by
+          rw [mem_singleton] at hb; subst hb; intro hab; subst hab; exact hnotin ha⟩
+      sgrng := fun t ht => by
+        have ht' : t ∈ slice (wr ps.segrep ps.nseg krep) 0 (ps.nseg + 1) := ht
+        rw [hslice 0 (le_refl _) (by omega)] at ht'
+        show 0 ≤ t ∧ t < e.jcol ∧ e.jcol ≤ rd (wr ps.marker (e.m + krep) e.jj) (e.m + t)
+        rcases mem_append.mp ht' with ht' | ht'
+        · obtain ⟨a, b, c⟩ := h.sgrng t ht'
+          refine ⟨a, b, ?_⟩
+          rw [hm1' t a]; split
+          · exact hjj
+          · exact c
+        · rw [mem_singleton] at ht'; subst ht'
+          refine ⟨k0, k1, ?_⟩
+          rw [hm1' t k0]; simp [hjj]
+      szS := by show _ ≤ ((wr ps.segrep _ _).size : Int); rw [size_wr]; exact h.szS }
+  · have hT' : ¬ (M0 krep < e.jcol ∧ krep ∉ pushNew e.jcol M0 X) := fun hh => hT (htest.mpr hh)
+    simp only [hT, if_false]
+    have hpn : pushNew e.jcol M0 (X ++ [krep]) = pushNew e.jcol M0 X := by
+      rw [pushNew_snoc]; simp only [hT', if_false]
+    exact { h with
+      cnseg := by show cs.nseg + 1 = n0c + ((X ++ [krep]).length : Int); rw [length_append]; simp; omega
+      cseg := fun hle => hcseg (by exact hle)
+      seg := by rw [hpn]; exact h.seg
+      m1 := fun t t0 t1 => by rw [hpn]; exact h.m1 t t0 t1 }
+
+end prim2
+
+/-! ### the transitions in lockstep -/
+
+/-- the companion configuration -/
+def cc (pc : Cfg) (cs : ColDfs.St) : ColDfs.Cfg := ⟨pc.krep, pc.xdfs, pc.maxdfs, cs⟩
+
+/-- `Slu.ColDfs.rowStep` with the row read from `lsub` made a parameter -/
+def crowK (e : ColDfs.Env) (c : ColDfs.Cfg) (kchild : Int) : ColDfs.Cfg :=
+  let st := c.st
+  let xdfs := c.xdfs + 1
+  let chmark := mk2 e st kchild
+  if chmark ≠ e.jcol then
+    let st := { st with marker := wr st.marker (2 * e.m + kchild) e.jcol }
+    let chperm := rd e.perm_r kchild
+    if chperm = EMPTY then
+      { c with xdfs := xdfs, st := ColDfs.appendRow e st kchild chmark }
+    else
+      let chrep := repOf e chperm
+      let myfnz := rd st.repfnz chrep
+      if myfnz ≠ EMPTY then
+        { c with xdfs := xdfs, st := ColDfs.lowerFnz st chrep myfnz chperm }
+      else
+        let st := { st with xplore := wr st.xplore c.krep xdfs }
+        let st := { st with parent := wr st.parent chrep c.krep }
+        let st := { st with repfnz := wr st.repfnz chrep chperm }
+        { krep := chrep, xdfs := rd e.xlsub chrep, maxdfs := rd e.xprune chrep, st := st }
+  else { c with xdfs := xdfs }
+
+theorem crow_eq (e : ColDfs.Env) (c : ColDfs.Cfg) : ColDfs.rowStep e c = crowK e c (rd c.st.lsub c.xdfs) := rfl
+
+theorem PEnvOK.lists (hE : PEnvOK e) {s : Int} (s0 : 0 ≤ s) (s1 : s < e.jcol) (s2 : repOf e.cenv s = s) :
+    0 ≤ rd e.xlsub s ∧ rd e.xlsub s ≤ rd e.xprune s ∧ rd e.xprune s ≤ e.lsub.size ∧
+    ∀ x, rd e.xlsub s ≤ x → x < rd e.xprune s →
+      0 ≤ rd e.lsub x ∧ rd e.lsub x < e.m ∧ (rd e.perm_r (rd e.lsub x) = EMPTY ∨ s ≤ rd e.perm_r (rd e.lsub x)) :=
+  hE.env.lists s s0 s1 s2
+
+theorem PEnvOK.perm (hE : PEnvOK e) {r : Int} (r0 : 0 ≤ r) (r1 : r < e.m) :
+    rd e.perm_r r = EMPTY ∨ (0 ≤ rd e.perm_r r ∧ rd e.perm_r r < e.jcol) := hE.env.perm r r0 r1
+
+theorem PEnvOK.rep (hE : PEnvOK e) {k : Int} (k0 : 0 ≤ k) (k1 : k < e.jcol) :
+    k ≤ repOf e.cenv k ∧ repOf e.cenv k < e.jcol ∧ repOf e.cenv (repOf e.cenv k) = repOf e.cenv k := hE.env.rep k k0 k1
+
+theorem rowStep_sim (hE : PEnvOK e) {X : List Int} {pc : Cfg} {cs : ColDfs.St}
+    (hS : Sim e M0 n0p n0c X pc.st cs) (hI : Inv e pc) (hlt : pc.xdfs < pc.maxdfs) :
+    ∃ cs', ColDfs.rowStep e.cenv (cc pc cs) = cc (rowStep e pc) cs' ∧ Sim e M0 n0p n0c X (rowStep e pc).st cs' ∧ Inv e (rowStep e pc) := by
+  obtain ⟨k0, k1, k2⟩ := hI.k0
+  obtain ⟨l0, l1, l2, l3⟩ := hE.lists k0 k1 k2
+  have hxd := hI.xd
+  have hmx := hI.mx
+  obtain ⟨kc0, kc1, kcp⟩ := l3 pc.xdfs hxd (by omega)
+  have hread : rd cs.lsub pc.xdfs = rd e.lsub pc.xdfs := hS.lsub _ (by omega) (by omega)
+  rw [crow_eq]
+  show ∃ cs', crowK e.cenv (cc pc cs) (rd cs.lsub pc.xdfs) = _ ∧ _
+  rw [hread]
+  have hmkiff := hS.mark _ kc0 kc1
+  have hjm := hE.jm
+  have hoff := hE.off0
+  unfold rowStep crowK
+  by_cases hmk : rd pc.st.marker (rd e.lsub pc.xdfs) = e.jj
+  · have hmk' : mk2 e.cenv cs (rd e.lsub pc.xdfs) = e.cenv.jcol := hmkiff.mp hmk
+    have hmk'' : mk2 e.cenv (cc pc cs).st (rd e.lsub pc.xdfs) = e.cenv.jcol := hmk'
+    simp only [hmk, hmk'', ne_eq, not_true_eq_false, if_false]
+    exact ⟨cs, rfl, hS, { hI with xd := by show rd e.xlsub pc.krep ≤ pc.xdfs + 1; omega }⟩
+  · have hmk' : ¬ mk2 e.cenv (cc pc cs).st (rd e.lsub pc.xdfs) = e.cenv.jcol := fun hh => hmk (hmkiff.mpr hh)
+    simp only [hmk, hmk', ne_eq, not_false_eq_true, if_true]
+    have hS1 := hS.markRow kc0 kc1
+    have hP1 : PInv e { pc.st with marker := wr pc.st.marker (rd e.lsub pc.xdfs) e.jj } :=
+      hI.P.of_disc (fun _ => Iff.rfl) rfl rfl
+    by_cases hp : rd e.perm_r (rd e.lsub pc.xdfs) = EMPTY
+    · have hp' : rd e.cenv.perm_r (rd e.lsub pc.xdfs) = EMPTY := hp
+      simp only [hp, hp', if_true]
+      refine ⟨_, rfl, hS1.append _ _, ?_⟩
+      exact { k0 := ⟨k0, k1, k2⟩, kd := hI.kd, mx := hmx, xd := by show rd e.xlsub pc.krep ≤ pc.xdfs + 1; omega,
+              P := hP1.of_disc (fun _ => Iff.rfl) rfl rfl }
+    · have hp' : ¬ rd e.cenv.perm_r (rd e.lsub pc.xdfs) = EMPTY := hp
+      simp only [hp, hp', if_false]
+      have hpr : 0 ≤ rd e.perm_r (rd e.lsub pc.xdfs) ∧ rd e.perm_r (rd e.lsub pc.xdfs) < e.jcol := by
+        rcases hE.perm kc0 kc1 with h | h
+        · exact absurd h hp
+        · exact h
+      obtain ⟨r1, r2, r3⟩ := hE.rep hpr.1 hpr.2
+      have hc0 : 0 ≤ repOf e.cenv (rd e.perm_r (rd e.lsub pc.xdfs)) := by omega
+      have hf := hS.fnz _ hc0 r2
+      by_cases h3 : fnz e pc.st (repOf e.cenv (rd e.perm_r (rd e.lsub pc.xdfs))) = EMPTY
+      · have h3' : rd cs.repfnz (repOf e.cenv (rd e.perm_r (rd e.lsub pc.xdfs))) = EMPTY := by rw [← hf]; exact h3
+        have h3a : fnz e { pc.st with marker := wr pc.st.marker (rd e.lsub pc.xdfs) e.jj } (repOf e.cenv (rd e.perm_r (rd e.lsub pc.xdfs))) = EMPTY := h3
+        have h3b : rd ({ (cc pc cs).st with marker := wr (cc pc cs).st.marker (2 * e.cenv.m + rd e.lsub pc.xdfs) e.cenv.jcol } : ColDfs.St).repfnz
+            (repOf e.cenv (rd e.cenv.perm_r (rd e.lsub pc.xdfs))) = EMPTY := h3'
+        simp only [h3a, h3b, ne_eq, not_true_eq_false, if_false]
+        refine ⟨_, rfl, ?_, ?_⟩
+        · exact { hS1 with
+            szR := by show _ ≤ ((wr pc.st.repfnz _ _).size : Int); rw [size_wr]; exact hS.szR
+            szRc := by show _ ≤ ((wr cs.repfnz _ _).size : Int); rw [size_wr]; exact hS.szRc
+            fnz := fun s s0 s1 => by
+              by_cases hs : s = repOf e.cenv (rd e.perm_r (rd e.lsub pc.xdfs))
+              · rw [hs]
+                show rd (wr pc.st.repfnz (e.off + repOf e.cenv (rd e.perm_r (rd e.lsub pc.xdfs))) (rd e.perm_r (rd e.lsub pc.xdfs))) (e.off + repOf e.cenv (rd e.perm_r (rd e.lsub pc.xdfs))) =
+                  rd (wr cs.repfnz (repOf e.cenv (rd e.perm_r (rd e.lsub pc.xdfs))) (rd e.perm_r (rd e.lsub pc.xdfs))) (repOf e.cenv (rd e.perm_r (rd e.lsub pc.xdfs)))
+                rw [rd_wr_eq (by omega) (by have := hS.szR; omega), rd_wr_eq hc0 (by have := hS.szRc; omega)]
+              · show rd (wr pc.st.repfnz (e.off + repOf e.cenv (rd e.perm_r (rd e.lsub pc.xdfs))) (rd e.perm_r (rd e.lsub pc.xdfs))) (e.off + s) =
+                  rd (wr cs.repfnz (repOf e.cenv (rd e.perm_r (rd e.lsub pc.xdfs))) (rd e.perm_r (rd e.lsub pc.xdfs))) s
+                rw [rd_wr_ne (by omega), rd_wr_ne hs]; exact hS.fnz s s0 s1
+            parent := by show wr pc.st.parent _ _ = wr cs.parent _ _; rw [hS.parent]; rfl
+            xplore := by show wr pc.st.xplore _ _ = wr cs.xplore _ _; rw [hS.xplore]; rfl
+            szP := by show _ ≤ ((wr pc.st.parent _ _).size : Int); rw [size_wr]; exact hS.szP
+            szX := by show _ ≤ ((wr pc.st.xplore _ _).size : Int); rw [size_wr]; exact hS.szX }
+        · refine { k0 := ⟨hc0, r2, r3⟩, kd := ?_, mx := rfl, xd := le_refl _, P := ?_ }
+          · show rd (wr pc.st.repfnz (e.off + _) _) (e.off + _) ≠ EMPTY
+            rw [rd_wr_eq (by omega) (by have := hS.szR; omega)]; exact hp
+          · exact hP1.descend (x' := pc.xdfs + 1) ⟨k0, k1, k2⟩ hI.kd (by omega) hc0 r2 h3 hS.szP hS.szX rfl rfl rfl
+      · have h3' : ¬ rd cs.repfnz (repOf e.cenv (rd e.perm_r (rd e.lsub pc.xdfs))) = EMPTY := by rw [← hf]; exact h3
+        have h3a : ¬ fnz e { pc.st with marker := wr pc.st.marker (rd e.lsub pc.xdfs) e.jj } (repOf e.cenv (rd e.perm_r (rd e.lsub pc.xdfs))) = EMPTY := h3
+        have h3b : ¬ rd ({ (cc pc cs).st with marker := wr (cc pc cs).st.marker (2 * e.cenv.m + rd e.lsub pc.xdfs) e.cenv.jcol } : ColDfs.St).repfnz
+            (repOf e.cenv (rd e.cenv.perm_r (rd e.lsub pc.xdfs))) = EMPTY := h3'
+        simp only [h3a, h3b, ne_eq, not_false_eq_true, if_true]
+        refine ⟨_, rfl, hS1.lower hE hc0 r2 hf, ?_⟩
+        have hd := fun t => lowerFnz_disc (e := e) (st := { pc.st with marker := wr pc.st.marker (rd e.lsub pc.xdfs) e.jj })
+          (myfnz := fnz e { pc.st with marker := wr pc.st.marker (rd e.lsub pc.xdfs) e.jj } (repOf e.cenv (rd e.perm_r (rd e.lsub pc.xdfs)))) hp h3 t
+        exact { k0 := ⟨k0, k1, k2⟩, kd := (hd _).mpr hI.kd, mx := hmx, xd := by show rd e.xlsub pc.krep ≤ pc.xdfs + 1; omega,
+                P := hP1.of_disc hd (lowerFnz_parent _ _ _ _ _).1 (lowerFnz_parent _ _ _ _ _).2 }
+
+theorem popStep_sim (hE : PEnvOK e) {X : List Int} {pc : Cfg} {cs : ColDfs.St}
+    (hS : Sim e M0 n0p n0c X pc.st cs) (hI : Inv e pc) :
+    (∃ ps' cs', popStep e pc = .inr ps' ∧ ColDfs.popStep e.cenv (cc pc cs) = .inr cs' ∧
+        Sim e M0 n0p n0c (X ++ [pc.krep]) ps' cs' ∧ PInv e ps') ∨
+    (∃ pc' cs', popStep e pc = .inl pc' ∧ ColDfs.popStep e.cenv (cc pc cs) = .inl (cc pc' cs') ∧
+        Sim e M0 n0p n0c (X ++ [pc.krep]) pc'.st cs' ∧ Inv e pc') := by
+  obtain ⟨k0, k1, k2⟩ := hI.k0
+  have hS' := hS.record hE k0 k1
+  obtain ⟨q1, q2, q3⟩ := record_parent e pc.st pc.krep
+  have hP' : PInv e (record e pc.st pc.krep) := hI.P.of_disc (fun t => by unfold fnz; rw [q3]) q1 q2
+  have hpar : rd (record e pc.st pc.krep).parent pc.krep = rd cs.parent pc.krep := by rw [q1, hS.parent]
+  unfold popStep ColDfs.popStep
+  by_cases hk : rd cs.parent pc.krep = EMPTY
+  · left
+    have hk1 : rd (record e pc.st pc.krep).parent pc.krep = EMPTY := by rw [hpar]; exact hk
+    have hk2 : rd ({ (cc pc cs).st with segrep := wr (cc pc cs).st.segrep (cc pc cs).st.nseg (cc pc cs).krep, nseg := (cc pc cs).st.nseg + 1 } : ColDfs.St).parent (cc pc cs).krep = EMPTY := hk
+    simp only [hk1, hk2, if_true]
+    exact ⟨_, _, rfl, rfl, hS', hP'⟩
+  · right
+    have hk1 : ¬ rd (record e pc.st pc.krep).parent pc.krep = EMPTY := by rw [hpar]; exact hk
+    have hk2 : ¬ rd ({ (cc pc cs).st with segrep := wr (cc pc cs).st.segrep (cc pc cs).st.nseg (cc pc cs).krep, nseg := (cc pc cs).st.nseg + 1 } : ColDfs.St).parent (cc pc cs).krep = EMPTY := hk
+    simp only [hk1, hk2, if_false]
+    have hkd' : fnz e (record e pc.st pc.krep) pc.krep ≠ EMPTY := by unfold fnz; rw [q3]; exact hI.kd
+    rcases hP' pc.krep k0 k1 hkd' with hh | ⟨a, b, c, d, f⟩
+    · exact absurd hh hk1
+    · refine ⟨_, _, rfl, ?_, hS', { k0 := ⟨a, b, c⟩, kd := d, mx := rfl, xd := f, P := hP' }⟩
+      show _ = Sum.inl (cc _ _)
+      unfold cc
+      simp only
+      rw [hpar, q2, hS.xplore]
+      rfl
+
+theorem run_sim (hE : PEnvOK e) : ∀ (F : Nat) (X : List Int) (pc : Cfg) (cs cs' : ColDfs.St),
+    Sim e M0 n0p n0c X pc.st cs → Inv e pc → ColDfs.run e.cenv F (cc pc cs) = some cs' →
+    ∃ ps' X', run e F pc = some ps' ∧ Sim e M0 n0p n0c X' ps' cs' ∧ PInv e ps'
+  | 0, _, _, _, _, _, _, h => by simp [ColDfs.run] at h
+  | F + 1, X, pc, cs, cs', hS, hI, h => by
+    unfold ColDfs.run ColDfs.step at h
+    unfold run step
+    have hx : (cc pc cs).xdfs = pc.xdfs := rfl
+    have hm : (cc pc cs).maxdfs = pc.maxdfs := rfl
+    rw [hx, hm] at h
+    by_cases hlt : pc.xdfs < pc.maxdfs
+    · simp only [hlt, if_true] at h ⊢
+      obtain ⟨cs1, h1, hS1, hI1⟩ := rowStep_sim hE hS hI hlt
+      rw [h1] at h
+      exact run_sim hE F X (rowStep e pc) cs1 cs' hS1 hI1 h
+    · simp only [hlt, if_false] at h ⊢
+      rcases popStep_sim hE hS hI with ⟨ps', cs1, h1, h2, hS1, hP1⟩ | ⟨pc', cs1, h1, h2, hS1, hI1⟩
+      · rw [h2] at h
+        rw [h1]
+        simp only at h ⊢
+        cases h
+        exact ⟨ps', _, rfl, hS1, hP1⟩
+      · rw [h2] at h
+        rw [h1]
+        simp only at h ⊢
+        exact run_sim hE F _ pc' cs1 cs' hS1 hI1 h
 
 end Slu.PanelDfs
